@@ -7,7 +7,7 @@ recorded as brittleness, 1 = false alarm)."""
 import json, os, re, shutil, subprocess, sys, tempfile
 prop, k = sys.argv[1], sys.argv[2]
 src = f"/tmp/refout-{prop}/{k}"
-prop = prop.rstrip("r")          # /tmp/refout-C04r/<k> holds the edits for property C04
+prop = prop.rstrip("rq")         # /tmp/refout-C04r/<k> (/tmp/refout-C04q/<k>) holds the edits for property C04
 if not os.path.isdir(src):
     src = f"/verif/seeded/harmless/{prop}-{k}"
 diff, note = f"{src}/patch.diff", f"{src}/notes.txt"
